@@ -2,7 +2,7 @@ SPECIFICATION Spec
 CONSTANTS
   PairShapes = {"s2b","l2a","mlc"}
   PairVals = {"plain","blank","apos","dquo","empty","hash"}
-  PairPrefs = {"impl","sq","dq","text"}
+  PairPrefs = {"impl","dq","text"}
   PairSeps = {"sp","sp3","tab"}
   FullProduct = FALSE
   OtherIds = {"same","impl","opp","colrev","ordrev","cell","mask","rowrev","qcat","eblk"}
